@@ -92,6 +92,11 @@ def families(thorough):
         for cache in (1, 2, 4):
             s.append(Case(t, stop='X', cache=cache))
             s.append(Case(t, stop='X', cache=cache, roles=(1, 1)))
+    # a full server-side cache: a statement that is USED (Bind) is the most recently used one, a Parse later in the same batch evicts another
+    for t in (['Ps', 'S', 'Ps2', 'S', 'Bs', 'E', 'Ps3', 'S', 'Bs3', 'E', 'S'], ['Ps', 'S', 'Ps2', 'S', 'Bs', 'E', 'S', 'Ps3', 'S', 'Bs', 'E', 'S'],
+              ['Ps', 'S', 'Ps2', 'S', 'Ps3', 'S', 'Bs3', 'E', 'Bs2', 'E', 'S']):
+        for cache in (2, 3):
+            s.append(Case(t, stop='X', cache=cache))
     F['cache'] = s
     # -- messages that are not what the protocol allows at that point (symbolic code byte, short bodies)
     s = []
@@ -246,7 +251,8 @@ def families(thorough):
     two_shards = [(0,), (0,)]
     for t in (["qd:1:SET SHARD TO '", 'select'], ["qd:1:SET SHARD TO '", 'q:SHOW SHARD', 'select', 'select2'], ["qd:2:SET SHARDING KEY TO '", 'select', 'q:SHOW SHARD'],
               ["qd:1:SET SHARD TO '", 'begin', "q:SET SHARD TO '0'", 'select', 'commit', 'select2'], ['q:set shard to 1;', 'select'], ['q:SET SHARD TO 1', "qd:1:SET SHARD TO '", 'select'],
-              ["qd:1:SET SHARDING KEY TO '", 'begin', 'select', 'select2', 'commit'], ['q:SHOW SHARD', "qd:1:SET SHARD TO '", 'q:SHOW SHARD']):
+              ["qd:1:SET SHARDING KEY TO '", 'begin', 'select', 'select2', 'commit'], ['q:SHOW SHARD', "qd:1:SET SHARD TO '", 'q:SHOW SHARD'],
+              ["q:SET SHARD TO '1'", "qd:1:SET SHARD TO '", 'q:SHOW SHARD', 'select']):
         for stop in ('X', 'eof'):
             s.append(Case(t, stop=stop, shards=two_shards, custom=True))
     if thorough:
